@@ -911,6 +911,50 @@ Proof.
   - intros m H. cbv -[install_mode app] in H. split; unfold modes_of; cbv -[install_mode app]; rewrite !app_nil_r; rewrite H; reflexivity.
 Qed.
 
+
+(* ------------------------------------------------------------------ set-id modes with -o/-g *)
+Lemma str_cmp_refl a : str_cmp a a = Eq.
+Proof. induction a as [|x a IH]; [reflexivity|]. cbn. now rewrite N.compare_refl. Qed.
+Lemma key_cmp_refl k : key_cmp k k = Eq.
+Proof. induction k as [|x k IH]; [reflexivity|]. cbn. now rewrite str_cmp_refl. Qed.
+
+Lemma lookup_put_same k n img : lookup k (put k n img) = Some n.
+Proof.
+  induction img as [|[k' n'] r IH]; cbn [put lookup].
+  - now rewrite key_cmp_refl.
+  - destruct (key_cmp k k') eqn:E; cbn [lookup]; rewrite ?key_cmp_refl, ?E; (reflexivity || exact IH).
+Qed.
+
+(* the file a successful install leaves at its destination has EXACTLY the requested mode, all
+   twelve bits: the model applies ownership before the mode (lchown, then chmod), so set-uid /
+   set-gid / sticky bits asked for with -m survive a simultaneous -o/-g *)
+Theorem installed_mode_is_requested_proof : forall um s cid p m s',
+  exec1 um s (AInstall (FReg cid) p (Some m)) = inl s' ->
+  lookup (key p) (s_img s') = Some (NFile m cid (s_ino s)).
+Proof.
+  intros um s cid p m s' H. cbn [exec1] in H.
+  destruct (negb (parent_ok (key p) (s_img s))); [discriminate|].
+  destruct (key p) as [|k0 kr] eqn:Ek; [discriminate|].
+  destruct (lookup (k0 :: kr) (s_img s)) as [[?|? ? ?|?]|]; try discriminate;
+    injection H as <-; cbn [s_img]; apply lookup_put_same.
+Qed.
+
+(* -o/--owner/-g/--group never change the mode the option string asks for *)
+Theorem owner_options_keep_mode_proof : forall v i ws mode f,
+  owner_id v = Some i ->
+  install_mode_words (lit "-o" :: v :: ws) mode (S f) = install_mode_words ws mode f
+  /\ install_mode_words (lit "-g" :: v :: ws) mode (S f) = install_mode_words ws mode f
+  /\ install_mode_words (lit "--owner" :: v :: ws) mode (S f) = install_mode_words ws mode f
+  /\ install_mode_words (lit "--group" :: v :: ws) mode (S f) = install_mode_words ws mode f.
+Proof. intros v i ws mode f H. repeat split; cbn -[owner_id install_mode_words]; cbn [install_mode_words]; cbv [startswith]; cbn -[owner_id install_mode_words]; now rewrite H. Qed.
+
+Example setid_with_owner_example :
+  install_mode (Some (lit "-m4711 -o root -g 0")) = Some (Some 2505%N)                 (* 0o4711 *)
+  /\ install_mode (Some (lit "-g 2 -m2755")) = Some (Some 1517%N)                      (* 0o2755 *)
+  /\ install_full (lit "--owner=1 -m 6755 -p")
+     = Some {| io_mode := 3565%N; io_owner := Some 1%N; io_group := None; io_preserve := true |}.
+Proof. repeat split; vm_compute; reflexivity. Qed.
+
 (* ------------------------------------------------------------------ the statements of Prop_C33 *)
 Theorem placement_is_pms_files_proof : forall c mode pos l,
   c_insmode c = Some mode ->
